@@ -337,14 +337,18 @@ namespace occa {
     }
 
     inline json& operator = (const jsonObject &value) {
+      // [value] may belong to a child of this json: copy it first
+      jsonObject newValue(value);
       type = object_;
-      value_.object = value;
+      value_.object.swap(newValue);
       return *this;
     }
 
     inline json& operator = (const jsonArray &value) {
+      // [value] may belong to a child of this json: copy it first
+      jsonArray newValue(value);
       type = array_;
-      value_.array = value;
+      value_.array.swap(newValue);
       return *this;
     }
 
